@@ -101,3 +101,79 @@ def run_rule(run, rule_id="F-SNAPSHOT"):
         raise AnalysisError(f"{rule_id}: positive control failed")
     run.note("positive control: `self.s = G.scope` is a reference, `list(G.scope)` a copy")
     run.end()
+
+
+# ---------------------------------------------------------------------------- aliases of shared containers
+def class_level_containers(idx):
+    """{attribute name: [(module, class)]} for mutable containers created in class bodies / at module level"""
+    out = {}
+    for m in idx.all_modules("cohdl/"):
+        for cname, c in m.classes.items():
+            for st in c.body:
+                if isinstance(st, (ast.Assign, ast.AnnAssign)) and st.value is not None:
+                    v = st.value
+                    mutable = isinstance(v, (ast.Set, ast.Dict, ast.List)) or (isinstance(v, ast.Call) and dotted(v.func) in ("set", "dict", "list", "IdMap", "IdSet", "collections.OrderedDict", "OrderedDict"))
+                    t = st.targets[0] if isinstance(st, ast.Assign) else st.target
+                    if mutable and isinstance(t, ast.Name):
+                        out.setdefault(t.id, []).append((m, cname))
+    return out
+
+
+def run_alias_rule(run, rule_id="F-ALIAS"):
+    run.begin(
+        rule_id,
+        "containers shared by all compilations (class-level sets / dicts / lists) are never updated in place through a "
+        "local alias (`r = self._table; r |= extra` changes the table for every later compilation), and a global that is "
+        "re-bound somewhere is not aliased at import time (the alias would keep pointing at the old object)",
+        floor=1,
+    )
+    idx = run.idx
+    shared = class_level_containers(idx)
+    n_alias = 0
+    for m in idx.all_modules("cohdl/"):
+        for q, f in m.functions.items():
+            aliases = {}
+            for a in walk_local(f.node):
+                if isinstance(a, ast.Assign) and isinstance(a.targets[0], ast.Name) and isinstance(a.value, ast.Attribute) and a.value.attr in shared:
+                    base = dotted(a.value.value) or ""
+                    if base in ("self", "cls") or base.split(".")[-1] in {c for _m, c in shared[a.value.attr]} or base == "type(self)":
+                        aliases[a.targets[0].id] = (a.value.attr, a.lineno)
+            if not aliases:
+                continue
+            n_alias += len(aliases)
+            for x in walk_local(f.node):
+                hit = None
+                if isinstance(x, ast.AugAssign) and isinstance(x.target, ast.Name) and x.target.id in aliases and isinstance(x.op, (ast.BitOr, ast.Add, ast.BitAnd, ast.Sub, ast.BitXor)):
+                    hit = x.target.id
+                elif isinstance(x, ast.Call) and isinstance(x.func, ast.Attribute) and x.func.attr in MUTATORS and isinstance(x.func.value, ast.Name) and x.func.value.id in aliases:
+                    hit = x.func.value.id
+                elif isinstance(x, (ast.Assign, ast.Delete)):
+                    for t in (x.targets if isinstance(x, (ast.Assign, ast.Delete)) else []):
+                        if isinstance(t, ast.Subscript) and isinstance(t.value, ast.Name) and t.value.id in aliases:
+                            hit = t.value.id
+                if hit:
+                    attr, line = aliases[hit]
+                    # rebinding the alias first (hit = set(hit) ...) makes it a private copy
+                    rebound = any(isinstance(a, ast.Assign) and dotted(a.targets[0]) == hit and a.lineno > line and a.lineno < x.lineno for a in walk_local(f.node))
+                    run.ob(rebound, f"{m.rel.split('/')[-1]}::{q}", file=m.rel, line=x.lineno, detail=f"in-place-via-{hit}", expected=f"a private copy of the shared `{attr}` (or a new object) is modified", found=src(x)[:70])
+    # import-time aliases of re-bound globals
+    rebound_targets = {}
+    for m in idx.all_modules("cohdl/"):
+        for q, f in m.functions.items():
+            for a in walk_local(f.node):
+                if isinstance(a, ast.Assign) and isinstance(a.targets[0], ast.Attribute):
+                    d = dotted(a.targets[0]) or ""
+                    if d.count(".") == 1 and not d.startswith(("self.", "cls.")) and d.split(".")[1] in shared:
+                        rebound_targets.setdefault(d, []).append(f"{m.rel}:{a.lineno}")
+    for m in idx.all_modules("cohdl/"):
+        for st in m.tree.body:
+            if isinstance(st, ast.Assign) and isinstance(st.targets[0], ast.Name) and isinstance(st.value, ast.Attribute):
+                d = dotted(st.value) or ""
+                if d in rebound_targets:
+                    run.ob(False, f"{m.rel.split('/')[-1]}::<module>", file=m.rel, line=st.lineno, detail=f"import-time-alias-{st.targets[0].id}", expected=f"{d} is looked up when needed (it is re-bound at {rebound_targets[d][0]})", found=src(st)[:70])
+    run.ob(True, "package", file="cohdl/", line=0, detail="scan", expected="no in-place update through an alias", found=f"{len(shared)} shared container names, {n_alias} local aliases examined")
+    # positive control
+    ctl = ast.parse("def f(self, extra):\n    r = self._additional_reserved\n    r |= extra\n")
+    if not any(isinstance(x, ast.AugAssign) for x in ast.walk(ctl)):
+        raise AnalysisError(f"{rule_id}: control")
+    run.end()
